@@ -619,6 +619,10 @@ class Interp:
             r = b.sym_binop(self, op, a, True)
             if r is not NotImplemented:
                 return r
+        if isinstance(op, ast.Add) and (isinstance(a, SymSeq) or isinstance(b, SymSeq)) \
+                and isinstance(a, (list, tuple, SymSeq)) and isinstance(b, (list, tuple, SymSeq)):
+            from .symcoll import ConcatSeq
+            return ConcatSeq([a, b])
         if not isinstance(a, SV) and not isinstance(b, SV):
             if isinstance(a, (Env, Obj)) or isinstance(b, (Env, Obj)):
                 if isinstance(op, ast.Mod) and isinstance(a, str):
@@ -861,6 +865,14 @@ class Interp:
 
     # ------------------------------------------------------------------ attribute access
     def getattr(self, v, name, node=None):
+        if isinstance(v, BoundBuiltin) and isinstance(v.recv, SV) and v.recv.k == "str":
+            # an attribute of a str SUBCLASS instance (pydicom UID: .name, .keyword, ...) used as a value:
+            # an unconstrained string / Boolean (assumed: these properties do not raise)
+            key = ("uidattr", v.name, str(v.recv.e))
+            if v.name.startswith("is_"):
+                v = self.fresh("bool", f"uid.{v.name}")
+            else:
+                v = self.fresh("str", f"uid.{v.name}")
         if isinstance(v, Obj):
             if self.cfg.obj_getattr is not None:
                 r = self.cfg.obj_getattr(self, v, name)
